@@ -10,14 +10,14 @@ import (
 )
 
 const (
-	rN        = 2048
-	rF        = 60
-	rThresh   = 2
-	rNIL      = rN
-	rNChar    = 256 - rThresh + rF
-	rT        = rNChar*2 - 1
-	rR        = rT - 1
-	rMaxFreq  = 0x8000
+	rN       = 2048
+	rF       = 60
+	rThresh  = 2
+	rNIL     = rN
+	rNChar   = 256 - rThresh + rF
+	rT       = rNChar*2 - 1
+	rR       = rT - 1
+	rMaxFreq = 0x8000
 )
 
 // position code: canonical prefix code with these many codes per length
@@ -59,9 +59,10 @@ func init() {
 }
 
 type huff struct {
-	freq [rT + 1]int
-	prnt [rT + rNChar]int
-	son  [rT]int
+	freq     [rT + 1]int
+	prnt     [rT + rNChar]int
+	son      [rT]int
+	rebuilds int // number of reconst() calls (observability only)
 }
 
 func (h *huff) start() {
@@ -84,6 +85,7 @@ func (h *huff) start() {
 }
 
 func (h *huff) reconst() {
+	h.rebuilds++
 	j := 0
 	for i := 0; i < rT; i++ {
 		if h.son[i] >= rT {
@@ -189,10 +191,31 @@ func (b *bitIn) byte8() int {
 	return v
 }
 
+// Stats describes what a decode run exercised (filled by DecodeStats). It is evidence about the
+// workload, never part of a verdict.
+type Stats struct {
+	Literals int         // literal symbols decoded
+	Matches  int         // match symbols decoded
+	PosHi    [64]int     // matches per upper-6-bit position code
+	Len      [rF + 1]int // matches per match length (3..60)
+	Rebuilds int         // adaptive-tree rebuilds (root frequency reached 0x8000)
+	LastLen  int         // length of the last symbol decoded (1 for a literal)
+}
+
 // Decode decodes a raw LZHUF stream (4 byte LE size + data). It returns the
 // decoded bytes, the number of input bytes consumed, and an error when the
 // stream is not a complete, exact encoding.
 func Decode(in []byte) (out []byte, consumed int, err error) {
+	return decode(in, nil)
+}
+
+// DecodeStats is Decode plus a description of the symbols that were decoded.
+func DecodeStats(in []byte) (out []byte, consumed int, st Stats, err error) {
+	out, consumed, err = decode(in, &st)
+	return
+}
+
+func decode(in []byte, st *Stats) (out []byte, consumed int, err error) {
 	if len(in) < 4 {
 		return nil, 0, ErrTrunc
 	}
@@ -208,7 +231,12 @@ func Decode(in []byte) (out []byte, consumed int, err error) {
 	}
 	r := rN - rF
 	bi := &bitIn{b: in[4:]}
-	out = make([]byte, 0, minInt(int(size), 1<<20))
+	// never allocate by the declared size alone: the output is bounded by what the input bits can
+	// encode (one symbol of at most rF bytes per bit)
+	out = make([]byte, 0, minInt(int(size), 64<<10))
+	if st != nil {
+		defer func() { st.Rebuilds = h.rebuilds }()
+	}
 	for len(out) < int(size) {
 		c := h.son[rR]
 		for c < rT {
@@ -224,6 +252,10 @@ func Decode(in []byte) (out []byte, consumed int, err error) {
 			out = append(out, byte(c))
 			text[r] = byte(c)
 			r = (r + 1) & (rN - 1)
+			if st != nil {
+				st.Literals++
+				st.LastLen = 1
+			}
 			continue
 		}
 		i := bi.byte8()
@@ -237,6 +269,12 @@ func Decode(in []byte) (out []byte, consumed int, err error) {
 		pos := pc | (i & 0x3f)
 		src := (r - pos - 1) & (rN - 1)
 		l := c - 255 + rThresh
+		if st != nil {
+			st.Matches++
+			st.PosHi[pos>>6]++
+			st.Len[l]++
+			st.LastLen = l
+		}
 		if len(out)+l > int(size) {
 			return out, 4 + bi.pos, ErrOverrun
 		}
@@ -260,14 +298,14 @@ func minInt(a, b int) int {
 // ---------------- encoder ----------------
 
 type enc struct {
-	h               huff
-	text            [rN + rF - 1]byte
-	lson, dad       [rN + 1]int
-	rson            [rN + 257]int
+	h                  huff
+	text               [rN + rF - 1]byte
+	lson, dad          [rN + 1]int
+	rson               [rN + 257]int
 	matchPos, matchLen int
-	out             bytes.Buffer
-	putbuf          uint32
-	putlen          uint
+	out                bytes.Buffer
+	putbuf             uint32
+	putlen             uint
 }
 
 func (e *enc) initTree() {
@@ -505,4 +543,3 @@ func EncodeB2(in []byte) []byte {
 	out.Write(raw)
 	return out.Bytes()
 }
-
